@@ -54,6 +54,21 @@ int clock_gettime(clockid_t id, struct timespec* ts) {
 
 static void run_script(void);
 
+/* ------------------------------------------------------------------ counting allocator (uv_replace_allocator)
+ * While `armed`, the allocation number `fail_at` (0-based, main thread only) returns NULL. */
+static int armed, fail_at = -1, alloc_n, fail_pending = -1;
+static int alloc_fails(void) {
+  if (!armed || !pthread_equal(pthread_self(), main_thread)) return 0;
+  return alloc_n++ == fail_at;
+}
+static void* c_malloc(size_t n) { return alloc_fails() ? NULL : malloc(n); }
+static void* c_calloc(size_t a, size_t b) { return alloc_fails() ? NULL : calloc(a, b); }
+static void* c_realloc(void* p, size_t n) { return alloc_fails() ? NULL : realloc(p, n); }
+static void c_free(void* p) { free(p); }
+static void touch_walk(uv_handle_t* h, void* arg) { ++*(int*) arg; (void) uv_is_active(h); }
+/* every node of the loop's handle list must live in valid memory (ASan) */
+static void walk_all(void) { int n = 0; uv_walk(&loop, touch_walk, &n); printf("#walk %d\n", n); }
+
 /* ================================================================== fs_poll */
 struct cx { uv_timer_t* timer; uv_fs_t* req; uv_fs_cb pollcb; uv_timer_cb tcb; uv_close_cb ccb; int alive; };
 static struct cx cx[MAXCTX];
@@ -139,7 +154,7 @@ static void tramp_tclose(uv_handle_t* t) {
   if (c < 0) { printf("#harness-failure unknown closing timer\n"); fflush(stdout); _exit(3); }
   if (!quiet) printf("ev timerclosed c%d\n", c);
   cx[c].alive = 0;
-  cx[c].ccb(t);
+  if (cx[c].ccb) cx[c].ccb(t);
   if (!quiet) printf("evend\n");
 }
 
@@ -218,9 +233,13 @@ static void poll_op(int argc, char** w) {
     if (ph[h].closing) { printf("misuse\n"); return; }
     snprintf(path, sizeof(path), "/c17/p%d", atoi(w[3]));
     in_start = 1; start_ctx = -1;
+    if (fail_pending >= 0) { fail_at = fail_pending; alloc_n = 0; armed = 1; }
     rc = uv_fs_poll_start(ph[h].p, pcbs[f], path, (unsigned) atoi(w[4]));
+    armed = 0;
     in_start = 0;
+    if (rc != 0 && start_ctx >= 0 && start_ctx == ncx - 1) { cx[start_ctx].alive = 0; ncx--; }  /* never existed */
     printf("ret %d a=%d\n", rc, uv_is_active((uv_handle_t*) ph[h].p));
+    if (fail_pending >= 0) walk_all();
   } else if (!strcmp(w[0], "stop") && argc == 2) {
     if (ph[h].closed) { printf("misuse\n"); return; }
     int rc = uv_fs_poll_stop(ph[h].p);
@@ -245,11 +264,16 @@ static char rbuf[8][4096]; static int rlen[8], nreads, rpos;
 int inotify_add_watch(int fd, const char* path, uint32_t mask) {
   if (mode == 1 && !strncmp(path, "/c17/w", 6)) {
     int wd = atoi(path + 6);
-    if (wd <= 0) { if (!quiet) printf("addwatch -2\n"); errno = ENOENT; return -1; }
-    if (!quiet) printf("addwatch %d\n", wd);
+    if (wd <= 0) { if (!quiet) printf("addwatch -2 mask=%u\n", mask); errno = ENOENT; return -1; }
+    if (!quiet) printf("addwatch %d mask=%u\n", wd, mask);
+    if (fail_pending >= 0) { fail_at = fail_pending; alloc_n = 0; armed = 1; }   /* allocations after the watch exists */
     return wd;
   }
-  return (int) syscall(SYS_inotify_add_watch, fd, path, mask);
+  {
+    int r = (int) syscall(SYS_inotify_add_watch, fd, path, mask);
+    if (mode == 2 && !quiet) printf("addwatch %d mask=%u\n", r < 0 ? -errno : r, mask);
+    return r;
+  }
 }
 int inotify_rm_watch(int fd, int wd) {
   if (mode == 1) { if (!quiet) printf("rmwatch %d\n", wd); return 0; }
@@ -296,7 +320,9 @@ static void ev_op(int argc, char** w) {
     if (eh[h].closing) { printf("misuse\n"); return; }
     snprintf(path, sizeof(path), "/c17/w%d_%d", atoi(w[3]), atoi(w[4]));
     rc = uv_fs_event_start(eh[h].p, ecbs[f], path, 0);
+    armed = 0;
     printf("ret %d a=%d\n", rc, uv_is_active((uv_handle_t*) eh[h].p));
+    if (fail_pending >= 0) walk_all();
   } else if (!strcmp(w[0], "startp") && argc == 4 && mode == 2) { /* startp h cb relpath */
     char path[512]; int f = atoi(w[2]), rc;
     if (f < 0 || f > 3 || strstr(w[3], "..")) { printf("bad-op\n"); return; }
@@ -378,7 +404,13 @@ static void do_line(char* line, int in_script) {
   for (t = strtok_r(copy, " ", &save); t && argc < 64; t = strtok_r(NULL, " ", &save)) w[argc++] = t;
   if (argc == 0) { free(copy); return; }
   printf("op %s\n", line);
-  if (!strcmp(w[0], "start") || !strcmp(w[0], "startp") || !strcmp(w[0], "stop") || !strcmp(w[0], "close") || !strcmp(w[0], "getpath")) {
+  if (!strcmp(w[0], "startfail") && argc == 6 && mode != 2 && !in_script) {
+    fail_pending = atoi(w[1]);
+    w[1] = "start";
+    if (fail_pending < 0) printf("bad-op\n");
+    else if (mode == 0) poll_op(argc - 1, w + 1); else ev_op(argc - 1, w + 1);
+    fail_pending = -1;
+  } else if (!strcmp(w[0], "start") || !strcmp(w[0], "startp") || !strcmp(w[0], "stop") || !strcmp(w[0], "close") || !strcmp(w[0], "getpath")) {
     if (mode == 0) poll_op(argc, w); else ev_op(argc, w);
   } else if (in_script) printf("bad-op\n");
   else if (!strcmp(w[0], "advance") && argc == 2 && mode == 0) { vnow += strtoull(w[1], NULL, 10); uv_update_time(&loop); }
@@ -410,6 +442,7 @@ int main(int argc, char** argv) {
   if (argc < 2) return 2;
   mode = !strcmp(argv[1], "poll") ? 0 : !strcmp(argv[1], "event") ? 1 : 2;
   if (mode == 2) { if (argc < 3) return 2; snprintf(scratch, sizeof(scratch), "%s", argv[2]); }
+  uv_replace_allocator(c_malloc, c_realloc, c_calloc, c_free);
   sem_init(&sem_entered, 0, 0); sem_init(&sem_go, 0, 0); sem_init(&sem_posted, 0, 0);
   virt_on = mode == 0;
   if (uv_loop_init(&loop)) return 3;
